@@ -231,6 +231,32 @@ def run(ctx):
                     if got != expected and not (expected == 'false' and got == 'error'):
                         ctx.violation('query result is not the first responding provider\'s answer (or a failure)',
                                       {'op': 'query %s' % qname, 'outcomes': outs, 'max_errors': maxe, 'observed': got, 'expected': expected})
+    # ---- a cached transaction read again after the cached block count has expired (no provider is asked for a confirmed transaction):
+    # its confirmations are those of a confirmed transaction, not a negative number
+    from datetime import datetime as _dt2, timedelta as _td2
+    try:
+        from bitcoinlib.db_cache import DbCacheVars
+    except Exception:
+        DbCacheVars = None
+    if DbCacheVars is not None:
+        srv = new_service(2)
+        for i in range(2):
+            script[i] = {'blockcount': ('ok', 800000), 'gettransaction': ('ok', tx_from)}
+            srv.providers['fake%d' % i]['priority'] = 50 - i
+        try:
+            first = srv.gettransaction(t.txid)
+            srv.cache.session.query(DbCacheVars).update({DbCacheVars.expires: _dt2.now() - _td2(days=2)})
+            srv.cache.session.commit()
+            for i in range(2):
+                script[i] = {'blockcount': ('raise',), 'gettransaction': ('raise',)}
+            again = srv.gettransaction(t.txid)
+            ctx.evals += 1
+            ctx.count('cached-after-blockcount-expired')
+            if again and (again.confirmations is None or again.confirmations < 1 or again.block_height != first.block_height):
+                ctx.violation('a cached confirmed transaction comes back with impossible confirmations after the cached block count expired',
+                              {'op': 'query gettransaction expired-blockcount', 'first': [first.block_height, first.confirmations], 'again': [again.block_height, again.confirmations]})
+        except ServiceError:
+            ctx.count('cached-after-blockcount-expired:refused')
     # ---- getinputvalues: the value written into an input is the value of that output in one provider's copy of the previous
     # transaction; when no provider has it the call fails and nothing is invented
     kprev = Key(4242)
